@@ -36,6 +36,7 @@ type Contract struct {
 	Results  []string
 	Requires []Clause
 	Ensures  []Clause
+	CallSites []CallSiteClause // assertions over the locals at every call of a named callee
 	Traced   int      // > 0: every call site records (id, arguments, first result) in the caller's local ghosts opid/opcall
 	Panics   []Clause // the function ends in a panic (no normal return) exactly when one of these holds at entry
 	Modifies []CExpr
@@ -45,12 +46,18 @@ type Contract struct {
 	Extern   bool
 	Inline   bool
 	NoInline bool
+	AbstractFloat bool // int->float conversions in the body yield an unconstrained float (the contract does not speak about float values)
 	Iface    bool // contract of an interface method (key = pkg.Iface.Method)
 	Splits   []SplitSpec // case splits applied to every ensures obligation
 	Protects []CExpr     // objects whose fields survive every havoc inside this function (ownership assumption)
 	PureIf   CExpr       // when this holds in the pre-state the call modifies nothing (frame is conditional)
 	Loops    map[int]*LoopSpec
 	Props    []string // property ids that own this function's obligations (informational)
+}
+
+type CallSiteClause struct {
+	Callee string // short function name, e.g. "RunFrame" or "py.NewGenerator"
+	Clause Clause
 }
 
 type SplitSpec struct {
@@ -114,8 +121,8 @@ func NewContracts() *Contracts {
 var clauseKeywords = map[string]bool{
 	"ghost": true, "spec": true, "global-invariant": true, "func": true, "extern": true, "iface": true,
 	"requires": true, "ensures": true, "modifies": true, "pure": true, "trusted": true, "inline": true,
-	"noinline": true, "loop": true, "invariant": true, "decreases": true, "lemma": true, "assume": true,
-	"show": true, "props": true, "loopmodifies": true, "split": true, "pureif": true, "immutable": true, "protects": true, "elemptr": true, "step": true, "panics": true, "allow-global-write": true, "traced": true,
+	"noinline": true, "abstractfloat": true, "loop": true, "invariant": true, "decreases": true, "lemma": true, "assume": true,
+	"show": true, "props": true, "loopmodifies": true, "split": true, "pureif": true, "immutable": true, "protects": true, "elemptr": true, "step": true, "panics": true, "allow-global-write": true, "traced": true, "callsite": true,
 }
 
 // logical lines: keyword + rest (continuations joined)
@@ -379,6 +386,19 @@ func (cs *Contracts) LoadFile(path, pkgPath string) error {
 				return fail(l, "step outside loop")
 			}
 			curLoop.Steps = append(curLoop.Steps, c)
+		case "callsite":
+			if cur == nil {
+				return fail(l, "callsite outside function")
+			}
+			f := strings.SplitN(strings.TrimSpace(l.rest), " ", 2)
+			if len(f) != 2 {
+				return fail(l, "callsite CALLEE label: expr")
+			}
+			cl, err := parseLabeled(f[1])
+			if err != nil {
+				return fail(l, "%v", err)
+			}
+			cur.CallSites = append(cur.CallSites, CallSiteClause{f[0], cl})
 		case "traced":
 			if cur == nil {
 				return fail(l, "traced outside function")
@@ -447,7 +467,7 @@ func (cs *Contracts) LoadFile(path, pkgPath string) error {
 					cur.Modifies = append(cur.Modifies, e)
 				}
 			}
-		case "pure", "trusted", "inline", "noinline":
+		case "pure", "trusted", "inline", "noinline", "abstractfloat":
 			if cur == nil {
 				return fail(l, "%s outside function", l.kw)
 			}
@@ -460,6 +480,8 @@ func (cs *Contracts) LoadFile(path, pkgPath string) error {
 				cur.Inline = true
 			case "noinline":
 				cur.NoInline = true
+			case "abstractfloat":
+				cur.AbstractFloat = true
 			}
 		case "protects":
 			if cur == nil {
